@@ -965,15 +965,29 @@ func callBuiltin(caller *frame, callpos token.Pos, fn *ssa.Builtin, args []value
 			// append([]byte, ...string) []byte
 			return append(args[0].([]value), strBytes(args[1])...)
 		}
-		// append([]T, ...[]T) []T
-		return append(args[0].([]value), args[1].([]value)...)
+		// append([]T, ...[]T) []T (struct and array elements are values: copy them)
+		src := args[1].([]value)
+		dst := args[0].([]value)
+		for _, e := range src {
+			dst = append(dst, copyVal(e))
+		}
+		return dst
 
 	case "copy": // copy([]T, []T) int or copy([]byte, string) int
 		src := args[1]
 		if isStrVal(src) {
 			src = strBytes(src)
 		}
-		return copy(args[0].([]value), src.([]value))
+		d, sv := args[0].([]value), src.([]value)
+		n := len(d)
+		if len(sv) < n {
+			n = len(sv)
+		}
+		tmp := make([]value, n)
+		for i := 0; i < n; i++ {
+			tmp[i] = copyVal(sv[i])
+		}
+		return copy(d, tmp)
 
 	case "close": // close(chan T)
 		chanClose(args[0])
@@ -1573,4 +1587,24 @@ func asciiString(x []value) (value, bool) {
 		}
 	}
 	return mkStr(out), true
+}
+
+// copyVal copies a value the way a Go assignment does: structs and arrays are
+// copied element-wise, everything else (pointers, slices, maps, scalars) is shared.
+func copyVal(v value) value {
+	switch x := v.(type) {
+	case structure:
+		c := make(structure, len(x))
+		for i, e := range x {
+			c[i] = copyVal(e)
+		}
+		return c
+	case array:
+		c := make(array, len(x))
+		for i, e := range x {
+			c[i] = copyVal(e)
+		}
+		return c
+	}
+	return v
 }
